@@ -405,6 +405,18 @@ def _run_query(doc, op):
             res.append([safe_repr(x) for x in lib[0:2]])
             res.append(safe_repr(lib[-1]))
         res += [lib.get('no-such-id'), 'no-such-id' in lib]
+        # look-ups by old ids, new ids and absent ids, in the order and multiplicity given
+        for key in (op[3] if len(op) > 3 else []):
+            kind, key = key
+            try:
+                if kind == 'get':
+                    res.append(safe_repr(lib.get(key)))
+                elif kind == 'in':
+                    res.append(key in lib)
+                else:
+                    res.append(safe_repr(lib[key]))
+            except Exception as e:  # noqa
+                res.append(['raised', type(e).__name__])
         return res
     if k == 'print':
         return [[W.scrub(str(o)), W.scrub(repr(o))] for o in every_object(doc)] + \
@@ -431,6 +443,18 @@ def _run_query(doc, op):
             return None
         return [e.almostEqual(f), [canon(getattr(e, p, None)) for p in e.supported]]
     raise ValueError('unknown query %r' % (k,))
+
+
+def apply_edit(doc, op):
+    """['edit', 'rename', library, position, new id]: the id of a library object is changed in place
+    (the library's index is left stale, as the library leaves it)"""
+    try:
+        if op[1] == 'rename':
+            lib = getattr(doc, op[2])
+            if len(lib):
+                lib[op[3] % len(lib)].id = op[4]
+    except Exception:  # noqa
+        pass
 
 
 def do_save(doc):
@@ -504,6 +528,13 @@ def run_case(case):
             steps.append({'op': k, 'changed': [], 'changed2': [], 'repeat_equal': True, 'same_as_twin': a == b})
             if a != b:
                 fail('saved-bytes', 'save', 'a save after queries wrote %r, the never-queried twin wrote %r' % (a, b), i)
+            seg = {}
+            continue
+        if k == 'edit':
+            # an edit (not a query): applied to the document and to its twin alike
+            for d in (A, B):
+                apply_edit(d, op)
+            steps.append({'op': k, 'changed': [], 'changed2': [], 'repeat_equal': True, 'same_as_twin': True})
             seg = {}
             continue
         if k == 'own':
